@@ -547,6 +547,47 @@ class World:
             _, items = self.run_call(run, 'ok', 'interleaved iterations')
             want = [m[0]] + m + m[1:]
             self.probe('p_overlapping_iterations')
+        elif mode == 'during' and len(m) >= 1:
+            # a list operation is applied to the object while an iteration over it is under way;
+            # a list iterator is index-based and sees the change
+            j = max(0, min(int(rec.get('j', 1)), len(m)))
+            mut = rec.get('mut', 'pop')
+            e = None
+            if mut in ('append', 'insert0'):
+                val, expect, e = self._single_operand(rec, x) if 'y' in rec else (None, 'skip', None)
+                if expect != 'ok' or len(m) >= MAX_LEN:
+                    mut = 'reverse'
+            m2 = list(m)
+            if mut == 'append':
+                m2.append(e)
+            elif mut == 'insert0':
+                m2.insert(0, e)
+            elif mut == 'pop':
+                m2.pop()
+            elif mut == 'clear':
+                m2.clear()
+            else:
+                mut = 'reverse'
+                m2.reverse()
+
+            def run():
+                it = iter(x.real)
+                head = [next(it) for _ in range(j)]
+                if mut == 'append':
+                    x.real.append(val)
+                elif mut == 'insert0':
+                    x.real.insert(0, val)
+                elif mut == 'pop':
+                    x.real.pop()
+                elif mut == 'clear':
+                    x.real.clear()
+                else:
+                    x.real.reverse()
+                return head + list(itertools.islice(it, len(m2) + 3))
+            _, items = self.run_call(run, 'ok', 'iteration with a list operation under way')
+            x.model[:] = m2
+            want = m[:j] + m2[j:]
+            self.probe('p_mutation_during_iteration')
         else:
             _, items = self.run_call(lambda: list(itertools.islice(x.real, cap)), 'ok', 'iteration')
             want = m
@@ -763,7 +804,7 @@ PROBES = ['slice_empty_result', 'slice_negative_step', 'slice_bound_beyond_len',
           'operand_shares_element_with_receiver', 'pop_empty', 'insert_beyond_end',
           'setitem_negative', 'get_negative', 'parent_into_child', 'child_into_parent',
           'rejected_then_accepted', 'alloc_zero', 'from_list_ok', 'special_values',
-          'reversed_iteration', 'overlapping_iterations', 'op_on_len_ge_10', 'op_on_len_ge_17', 'op_on_len_ge_33',
+          'reversed_iteration', 'overlapping_iterations', 'mutation_during_iteration', 'op_on_len_ge_10', 'op_on_len_ge_17', 'op_on_len_ge_33',
           'from_list_bad_item_next_to_empty_item', 'extend_by_len_0',
           'extend_by_len_1', 'extend_by_len_2']
 
@@ -897,8 +938,15 @@ def gen_step(world, cfg, rng):
     if op == 'copy':
         return {'op': 'copy', 'x': xi}
     if op == 'iter':
-        return {'op': op, 'x': xi,
-                'mode': rng.choice(['plain', 'plain', 'rev', 'zip', 'nested', 'interleaved'])}
+        rec = {'op': op, 'x': xi,
+               'mode': rng.choice(['plain', 'plain', 'rev', 'zip', 'nested', 'interleaved', 'during'])}
+        if rec['mode'] == 'during':
+            rec['j'] = rng.randint(0, min(n, 3))
+            rec['mut'] = rng.choice(['append', 'insert0', 'pop', 'reverse', 'clear', 'append'])
+            c = [k for k, o in enumerate(objs) if o.cname == x.cname and len(o.model) == 1]
+            if c:
+                rec['y'] = {'ref': rng.choice(c)}
+        return rec
     if op in ('reverse', 'clear'):
         return {'op': op, 'x': xi}
     if op == 'get':
